@@ -178,8 +178,10 @@ impl<'a> Gen<'a> {
                 ));
             }
             if !self.k.classes_only && r.p(3) {
-                if r.p(50) {
+                if r.p(35) {
                     s.push_str(r.pick(&[" color=red", " bgcolor=#123456", " bgcolor=00aabb", " color=\"#f00\""]));
+                } else if r.p(30) {
+                    s.push_str(&format!(" {}={}", r.pick(&["color", "bgcolor"]), r.pick(COLOUR_NAMES)));
                 } else {
                     // legacy colour attributes with arbitrary values: hex digits with and without '#', short and long, with
                     // blanks, non-hex letters, functions and non-ASCII characters at every byte offset
@@ -604,9 +606,15 @@ pub fn selector(r: &mut R) -> String {
     }
     s
 }
+/// the seventeen colour keywords the library knows, and a few it does not (added after mutations of two table entries survived)
+pub const COLOUR_NAMES: &[&str] = &[
+    "aqua", "black", "blue", "fuchsia", "gray", "green", "lime", "maroon", "navy", "olive", "orange", "purple", "red", "silver", "teal", "white", "yellow",
+    "grey", "cyan", "magenta", "pink", "Aqua", "MAROON",
+];
 pub fn decl(r: &mut R) -> String {
     let (p, v): (String, String) = match r.b(12) {
-        0 | 1 | 2 => ("color".into(), r.pick(&["red", "#123", "#aBcDeF", "rgb(1,2,3)", "rgb( 10 , 20 , 30 )", "inherit", "#12", "rgb(300,0,0)", "BLUE", "#gggggg", "rgb(1 2 3)"]).to_string()),
+        0 | 1 => ("color".into(), r.pick(&["red", "#123", "#aBcDeF", "rgb(1,2,3)", "rgb( 10 , 20 , 30 )", "inherit", "#12", "rgb(300,0,0)", "BLUE", "#gggggg", "rgb(1 2 3)"]).to_string()),
+        2 => (r.pick(&["color", "color", "background-color"]).to_string(), r.pick(COLOUR_NAMES).to_string()),
         3 => ("background-color".into(), r.pick(&["white", "#fff", "#000000", "transparent"]).to_string()),
         4 => ("background".into(), r.pick(&["red", "url(x.png), #123", "no-repeat", "#fff url(x)"]).to_string()),
         5 => ("display".into(), r.pick(&["none", "block", "inline none", "NONE"]).to_string()),
